@@ -695,6 +695,113 @@ Section Coherence.
     split; [reflexivity|]. split; [apply doc_after_noop; reflexivity|].
     apply history_noop. reflexivity.
   Qed.
+
+  (* ================================================================== L. the active platform *)
+  Lemma elab_app act a : forall b, elab act (a ++ b)%list = (elab act a ++ elab (active_after act a) b)%list.
+  Proof.
+    revert act. induction a as [|x r IH]; intros act b; cbn; [reflexivity|]. rewrite IH. reflexivity.
+  Qed.
+
+  Lemma elab_length l : forall act, length (elab act l) = length l.
+  Proof. induction l as [|x r IH]; intros act; cbn; [reflexivity|]. rewrite IH. reflexivity. Qed.
+
+  Lemma active_after_app a : forall act b, active_after act (a ++ b)%list = active_after (active_after act a) b.
+  Proof. induction a as [|x r IH]; intros act b; cbn; [reflexivity|]. apply IH. Qed.
+
+  (* one call of the larger alphabet = the explicit call it means, and the next active platform *)
+  Lemma astep_elab ast a :
+    astep mt dflt ast a
+    = ({| a_plat := act_next (a_plat ast) a; a_st := fst (step mt dflt (a_st ast) (elab1 (a_plat ast) a)) |},
+       snd (step mt dflt (a_st ast) (elab1 (a_plat ast) a))).
+  Proof.
+    destruct ast as [act st]. destruct a as [o|o|p]; cbn [astep elab1 act_next a_plat a_st].
+    - destruct (step mt dflt st o); reflexivity.
+    - destruct (step mt dflt st (with_plat act o)); reflexivity.
+    - reflexivity.
+  Qed.
+
+  (* a history with implicit-platform calls and platform switches IS the history of explicit calls [elab] writes *)
+  Lemma arun_elab l : forall ast,
+    arun mt dflt ast l
+    = ({| a_plat := active_after (a_plat ast) l; a_st := fst (run mt dflt (a_st ast) (elab (a_plat ast) l)) |},
+       snd (run mt dflt (a_st ast) (elab (a_plat ast) l))).
+  Proof.
+    induction l as [|a r IH]; intros ast; cbn [arun elab active_after run].
+    - destruct ast; reflexivity.
+    - rewrite astep_elab. rewrite IH. cbn [a_plat a_st].
+      destruct (step mt dflt (a_st ast) (elab1 (a_plat ast) a)) as [st1 ob]. cbn [fst snd].
+      destruct (run mt dflt st1 (elab (act_next (a_plat ast) a) r)) as [st2 obs]. reflexivity.
+  Qed.
+
+  Lemma trace_obs ops : forall st,
+    map (fun t : obs * list string * list err => fst (fst t)) (trace mt dflt st ops) = snd (run mt dflt st ops).
+  Proof.
+    induction ops as [|o r IH]; intros st; cbn [trace run]; [reflexivity|].
+    destruct (step mt dflt st o) as [st1 ob]. specialize (IH st1).
+    destruct (run mt dflt st1 r) as [st2 obs]. cbn [map fst snd] in *. rewrite IH. reflexivity.
+  Qed.
+
+  (* what the correspondence run evaluates (atrace) shows the observations of arun *)
+  Lemma atrace_obs ast l :
+    map (fun t : obs * list string * list err => fst (fst t)) (atrace mt dflt ast l) = snd (arun mt dflt ast l).
+  Proof. unfold atrace. rewrite trace_obs, arun_elab. reflexivity. Qed.
+
+  Lemma arun_coherent ast l : ok_hist (elab (a_plat ast) l) = true -> coherent (a_st ast) ->
+    coherent (a_st (fst (arun mt dflt ast l))).
+  Proof.
+    intros Hok Hc. rewrite arun_elab. cbn [fst a_st].
+    exact (run_coherent_ok _ _ _ (le_n _) Hok Hc).
+  Qed.
+
+  (* every IMPLICIT query of every history answers what the description produced by the preceding mutators resolves
+     to from scratch ON THE PLATFORM THAT IS ACTIVE WHEN IT IS ASKED *)
+  Lemma history_fresh_active st act pre x s n post :
+    coherent st -> ok_hist (elab act pre) = true -> plat_ok (active_after act pre) = true ->
+    nth_error (snd (arun mt dflt {| a_plat := act; a_st := st |} (pre ++ Im (Query x s n) :: post)%list)) (length pre)
+    = Some (ORes (qresolve dflt (doc_after (s_doc st) (elab act pre)) (active_after act pre) s n)).
+  Proof.
+    intros Hc Hok Hp. rewrite arun_elab. cbn [snd a_plat a_st].
+    rewrite elab_app. cbn [elab elab1 with_plat]. rewrite <- (elab_length pre act).
+    apply history_fresh_ok; assumption.
+  Qed.
+
+  (* ... and every EXPLICIT query what it resolves to on the platform the caller names, whatever platform is active *)
+  Lemma history_fresh_explicit st act pre p s n post :
+    coherent st -> ok_hist (elab act pre) = true -> plat_ok p = true ->
+    nth_error (snd (arun mt dflt {| a_plat := act; a_st := st |} (pre ++ E (Query p s n) :: post)%list)) (length pre)
+    = Some (ORes (qresolve dflt (doc_after (s_doc st) (elab act pre)) p s n)).
+  Proof.
+    intros Hc Hok Hp. rewrite arun_elab. cbn [snd a_plat a_st].
+    rewrite elab_app. cbn [elab elab1]. rewrite <- (elab_length pre act).
+    apply history_fresh_ok; assumption.
+  Qed.
+
+  (* configure_platform: the active platform changes, document and cache do not; the document the queries are
+     measured against does not move *)
+  Lemma history_configure ast p act pre post d :
+    astep mt dflt ast (ConfigurePlatform p) = ({| a_plat := plat_or_default p; a_st := a_st ast |}, ODone) /\
+    doc_after d (elab act (pre ++ ConfigurePlatform p :: post)%list)
+    = doc_after d (elab act pre ++ elab (plat_or_default p) post)%list /\
+    active_after act (pre ++ ConfigurePlatform p :: post)%list = active_after (plat_or_default p) post.
+  Proof.
+    split; [reflexivity|]. split.
+    - rewrite elab_app. cbn [elab elab1 act_next]. apply doc_after_noop. reflexivity.
+    - rewrite active_after_app. reflexivity.
+  Qed.
+
+  (* calls that name their platform do not depend on the active one: a history without implicit calls means the
+     same explicit history whatever platform the object was constructed for *)
+  Definition explicit_only (l : list aop) : bool :=
+    forallb (fun a => match a with Im _ => false | _ => true end) l.
+
+  Lemma explicit_indep l : forall act act', explicit_only l = true -> elab act l = elab act' l.
+  Proof.
+    induction l as [|a r IH]; intros act act' H; cbn; [reflexivity|].
+    cbn in H. apply andb_true_iff in H as [H1 H2].
+    destruct a as [o|o|p]; cbn; try discriminate.
+    - rewrite (IH act act' H2). reflexivity.
+    - reflexivity.
+  Qed.
 End Coherence.
 
 Lemma coherent_empty dflt d : coherent dflt {| s_doc := d; s_cache := [] |}.
